@@ -48,6 +48,7 @@ deriving DecidableEq, Repr, Inhabited
 inductive LOp where
   | api (o : Op)
   | feed (outs : List Outcome)   -- more scripted syscall outcomes become available
+  | clearEnv                     -- the remaining script is dropped: from now on the OS accepts everything
   | runPending                   -- uv__run_pending: the uv__io_feed'd watcher gets POLLOUT
   | pollout                      -- uv__io_poll delivers POLLOUT (only if armed)
   | endgame                      -- uv__run_closing_handles -> uv__finish_close
@@ -330,7 +331,8 @@ def flush (s : S) : S :=
 
 def streamConnect (sc : Script) (s : S) : S :=
   let s := { s with connecting := false,
-                    pollout := if s.connErr < 0 ∨ s.wq.isEmpty then false else s.pollout,
+                    -- 1285-1292: POLLOUT stays armed for queued writes or a pending shutdown
+                    pollout := if s.connErr < 0 ∨ (s.wq.isEmpty ∧ !s.shutdownReq) then false else s.pollout,
                     hardErr := if s.connErr < 0 then true else s.hardErr }
   let s := userCb sc (emit s (.conncb s.connErr))
   if !s.fdOpen then s
@@ -362,6 +364,7 @@ def destroy (sc : Script) (s : S) : S :=
 def lstep (sc : Script) (s : S) : LOp → S
   | .api o => apiOp s o
   | .feed outs => { s with env := s.env ++ outs }
+  | .clearEnv => { s with env := [] }
   | .runPending => if s.pending then streamIo sc { s with pending := false } else s
   | .pollout => if s.pollout then streamIo sc s else s
   | .endgame => if s.closing ∧ !s.closed then destroy sc s else s
